@@ -156,13 +156,13 @@ pub mod authorizer_builder {
 
     //@extract biscuit-auth/src/token/builder/authorizer.rs :: fn load_and_translate_block
     //@ attr #[verifier::loop_isolation(false)]
-    //@ sub crate::token::builder::Scope::convert_from\(scope, &block_symbols\)\s*\.map\(\|s\| s\.convert\(authorizer_symbols\)\)\? => crate::builder::verif_translate_scope(scope, &block_symbols, authorizer_symbols)?
+    //@ sub crate::token::builder::Scope::convert_from\(scope, (&?\w+)\)\s*\.map\(\|s\| s\.convert\(authorizer_symbols\)\)\? => crate::builder::verif_translate_scope(scope, \1, authorizer_symbols)?
     //@ sub Fact::convert_from\(fact, &block_symbols\)\?\.convert\(authorizer_symbols\) => BFact::convert_from(fact, &block_symbols)?.convert(authorizer_symbols)
     //@ ghost body_start :: let ghost m = old(public_key_to_block_id)@; let ghost src = source_symbols(*old(block), i, *token_symbols);
     //@ loop 0 ghost it0
     //@ loop 0 invariant elems: it0.seq().len() == old(block).scopes@.len() && forall|k: int| 0 <= k < it0.seq().len() ==> *(#[trigger] it0.seq()[k]) == old(block).scopes@[k]
     //@ loop 0 invariant translated: forall|k: int| 0 <= k < it0.index@ ==> scope_tr(*(#[trigger] it0.seq()[k]), src) == Ok::<token::Scope, error::Format>(*final(it0.seq()[k]))
-    //@ loop 0 invariant frame: *world == *old(world) && *public_key_to_block_id == *old(public_key_to_block_id) && block_symbols == src
+    //@ loop 0 invariant frame: *world == *old(world) && *public_key_to_block_id == *old(public_key_to_block_id)
     //@ ghost after_loop 0 :: let ghost bs = block.scopes@;
     //@ ghost before "for fact in" :: proof { lemma_tset(block_trusted_origins.0.inner@, bs, default_trust(), i, m); }
     //@ loop 1 ghost it1
